@@ -144,7 +144,7 @@ class C14(Prop):
     assumptions = ("library writes are told apart from application writes by who is running when sendall is called",
                    "the scheduled stage (a sender thread racing with the event loop's pong) uses the deterministic scheduler "
                    "of C11/C12 at source-line granularity, every thread order x every single preemption")
-    examples = {"quick": 3000, "thorough": 60000}
+    examples = {"quick": 3000, "thorough": 150000}
 
     def strategy(self, tier):
         m = gen.weighted([(5, ping_msg()), (3, gen.data_msg(big=False)), (1, gen.control_msg(("pong",)))])
